@@ -146,7 +146,7 @@ def run(tier, seed):
                               f"final {json.dumps(b['event']['final'])}")
     # 3. free running programs under the race detector, GOMAXPROCS 1..16
     race = common.build_harness(race=True)
-    kinds = [("chan", 0), ("chan", 1), ("chan", 8), ("select", 0), ("select", 4), ("selectfn", 2), ("mutex", 0), ("mutexnest", 0), ("syncinst", 0), ("syncmethod", 0), ("withslots", 0), ("tables", 0)]
+    kinds = [("chan", 0), ("chan", 1), ("chan", 8), ("select", 0), ("select", 4), ("selectfn", 2), ("mutex", 0), ("mutexnest", 0), ("syncinst", 0), ("syncmethod", 0), ("withslots", 0), ("rangehandoff", 0), ("tables", 0)]
     sizes = [(2, 20), (4, 50)] if quick else [(2, 20), (4, 50), (8, 200), (3, 101)]
     stress = []
     for k, cap in kinds:
